@@ -7,22 +7,23 @@ Import ListNotations.
 Open Scope Z_scope.
 
 (* ---- re-rooting: for EVERY tree given by parent indices and EVERY vertex i, the Python loop of to_root (fuel =
-   len(connectivity)) terminates without IndexError, keeps the undirected edge set, leaves exactly i as root, and the
-   result is again a tree (so the statement can be iterated) *)
+   len(connectivity)) terminates without IndexError, keeps the undirected edges (the edge list, each edge as (min, max), is
+   duplicate-free on a tree and is permuted), leaves exactly i as root, and the result is again a tree (so the
+   statement can be iterated) *)
 Theorem C18_to_root : forall (c : list Z) (i : Z),
     tree_parent c -> 0 <= i < zlen c ->
     exists c', to_root c i = Ok c' /\ length c' = length c /\
-               (forall e, In e (undirected_edges c') <-> In e (undirected_edges c)) /\
+               Permutation (undirected_edges c') (undirected_edges c) /\
                roots c' = [i] /\ tree_parent c'.
-Proof. exact to_root_tree. Qed.
+Proof. exact to_root_tree_perm. Qed.
 Print Assumptions C18_to_root.
 
 Theorem C18_to_root_any_sequence : forall (indices : list Z) (c : list Z),
     tree_parent c -> (forall i, In i indices -> 0 <= i < zlen c) ->
     exists c', to_root_seq c indices = Ok c' /\ length c' = length c /\
-               (forall e, In e (undirected_edges c') <-> In e (undirected_edges c)) /\
+               Permutation (undirected_edges c') (undirected_edges c) /\
                roots c' = match indices with [] => roots c | _ => [last indices 0] end /\ tree_parent c'.
-Proof. exact to_root_seq_tree. Qed.
+Proof. exact to_root_seq_tree_perm. Qed.
 Print Assumptions C18_to_root_any_sequence.
 
 (* the executable check evaluated on the generated inputs implies the hypothesis *)
